@@ -1,4 +1,91 @@
-"""Self-validation corpus runner (thorough tier). Filled in later."""
+"""Self-validation corpus (DESIGN 3.5): in-memory variants of the current tree, each with a reviewed ground truth.
 
-def run_for(prop, mod, baseline_findings=None):
-    return {"variants": 0, "note": "corpus not built yet"}
+B variants break one rule instance while the module still compiles: the named rule must fire.
+N variants are behaviour-preserving twins: no rule of the property may fire (beyond the baseline findings).
+A variant whose anchor text no longer occurs exactly once is skipped and counted."""
+import ast
+import importlib
+import os
+from concurrent.futures import ProcessPoolExecutor
+
+from .model import load_sources, AnalysisError
+from .report import Ctx, load_known
+
+
+def apply_variant(sources, v):
+    out = dict(sources)
+    for (rel, old, new) in v["edits"]:
+        if rel not in out or out[rel].count(old) != 1:
+            return None
+        out[rel] = out[rel].replace(old, new)
+        try:
+            ast.parse(out[rel])
+        except SyntaxError:
+            return None
+    return out
+
+
+def _run_one(args):
+    prop, v, baseline_keys = args
+    from .engine import Analysis
+    sources = load_sources()
+    src = apply_variant(sources, v)
+    if src is None:
+        return (v["name"], "skipped", [])
+    mod = importlib.import_module("sa.rules." + prop.lower())
+    try:
+        a = Analysis(sources=src)
+        ctx = Ctx(prop, a, "selftest")
+        mod.check(ctx)
+        from .report import finish
+        for what, seen, fl in ctx.floors:
+            if seen < fl:
+                raise AnalysisError("floor %s" % what)
+        new = sorted({(f.rule, f.construct) for f in ctx.findings} - set(baseline_keys))
+        return (v["name"], "ran", new)
+    except AnalysisError as e:
+        return (v["name"], "analysis-error", [("ANALYSIS-ERROR", str(e))])
+
+
+def run_for(prop, mod, baseline_findings=None, jobs=None):
+    corpus_mod = importlib.import_module("sa.corpus")
+    variants = [v for v in corpus_mod.VARIANTS if prop in v["props"]]
+    known = {(k["rule"], k["construct"]) for k in load_known() if k.get("property") == prop and k.get("status") == "known"}
+    baseline = sorted({(f.rule, f.construct) for f in (baseline_findings or [])})
+    unlisted_baseline = [b for b in baseline if b not in known]
+    if unlisted_baseline:
+        return {"variants": len(variants), "note": "corpus not run: the tree itself has unlisted findings"}
+    jobs = jobs or min(16, os.cpu_count() or 4)
+    res = []
+    if variants:
+        with ProcessPoolExecutor(max_workers=jobs) as ex:
+            res = list(ex.map(_run_one, [(prop, v, baseline) for v in variants]))
+    table = []
+    wrong = []
+    nb = nn = skipped = 0
+    for v, (name, status, new) in zip(variants, res):
+        exp = v["expect"].get(prop)
+        row = {"name": name, "kind": v["kind"], "status": status, "fired": ["%s %s" % x for x in new][:4]}
+        if status == "skipped":
+            skipped += 1
+            row["verdict"] = "skipped"
+        elif v["kind"] == "N":
+            nn += 1
+            ok = not new
+            row["verdict"] = "silent as expected" if ok else "FALSE ALARM"
+            if not ok:
+                wrong.append(row)
+        else:
+            nb += 1
+            fired_rules = {r for r, _ in new}
+            ok = bool(new) and (exp is None or bool(fired_rules & set(exp)) or status == "analysis-error" and "ANALYSIS-ERROR" in (exp or []))
+            row["verdict"] = "fired as expected" if ok else "MISSED"
+            if not ok:
+                wrong.append(row)
+        table.append(row)
+    out = {"variants": len(variants), "breaking_run": nb, "neutral_run": nn, "skipped": skipped,
+           "wrong": len(wrong), "table": table}
+    if wrong:
+        raise AnalysisError("selftest: checker gives the wrong outcome on %d corpus variants: %s" % (
+            len(wrong), [(w["name"], w["verdict"]) for w in wrong][:5]))
+    return out
